@@ -100,6 +100,16 @@ type verifAmlResult struct {
 	tables   []*verifAmlTable
 	elapsed  time.Duration
 	stack    string // top frames of the panic, if any
+	errLog   string // what the parser wrote to its error writer (first 400 bytes)
+}
+
+type verifAmlLog struct{ res *verifAmlResult }
+
+func (l *verifAmlLog) Write(p []byte) (int, error) {
+	if len(l.res.errLog) < 400 {
+		l.res.errLog += string(p)
+	}
+	return len(p), nil
 }
 
 func (r *verifAmlResult) release() {
@@ -163,7 +173,8 @@ func verifAmlParse(payloads [][]byte) (res verifAmlResult) {
 	for _, p := range payloads {
 		res.tables = append(res.tables, verifAmlMakeTable(p))
 	}
-	var ew io.Writer = ioutil.Discard
+	// diagnostics of the parser: kept (bounded) for the monitor messages
+	var ew io.Writer = &verifAmlLog{res: &res}
 	if os.Getenv("VERIF_AML_PRINT") != "" {
 		ew = os.Stderr
 		defer func() {
